@@ -167,20 +167,18 @@ var (
 	gates  = map[*hap.Connection]*writeGate{}
 )
 
-func init() {
-	hap.VerifWriteEnter = func(con *hap.Connection) {
-		gateMu.Lock()
-		g := gates[con]
-		gateMu.Unlock()
-		if g == nil {
-			return
-		}
-		first := false
-		g.once.Do(func() { first = true })
-		if first {
-			close(g.entered)
-			<-g.release
-		}
+func notifyEnterHook(con *hap.Connection) {
+	gateMu.Lock()
+	g := gates[con]
+	gateMu.Unlock()
+	if g == nil {
+		return
+	}
+	first := false
+	g.once.Do(func() { first = true })
+	if first {
+		close(g.entered)
+		<-g.release
 	}
 }
 
